@@ -51,6 +51,7 @@ type posSt struct {
 	Fee  []big  `json:"fee"`  // claimable spread rewards [d0,d1]
 	Inc  []big  `json:"inc"`  // claimable incentives, per allDenoms
 	Forf []big  `json:"forf"` // incentives that would be forfeited, per allDenoms
+	Lock int    `json:"lock"` // 1: bound by an unexpired lock (cannot be withdrawn or transferred yet)
 	QErr string `json:"qerr"` // non-empty: a claimable query failed for this open position
 }
 
@@ -176,6 +177,9 @@ func (w *world) snapshot(ctx sdk.Context) state {
 		}
 		ps := posSt{ID: id, Own: w.userIdx(pp.Address), Lo: pp.LowerTick, Hi: pp.UpperTick, Liq: apphelp.BigD(pp.Liquidity),
 			Join: ms(pp.JoinTime, w.t0)}
+		if active, _, err := k.PositionHasActiveUnderlyingLock(ctx, id); err == nil && active {
+			ps.Lock = 1
+		}
 		ps.Fee, ps.Inc, ps.Forf = coinsVec(nil, []string{d0, d1}), coinsVec(nil, allDenoms), coinsVec(nil, allDenoms)
 		ps.QErr = ""
 		func() { // a query that errors or panics on an open position is itself logged
@@ -306,7 +310,8 @@ func (w *world) snapshot(ctx sdk.Context) state {
 // given order; what is left in the three pool accounts is logged.
 type drainRes struct {
 	Order   string  `json:"order"`
-	Fail    []int   `json:"fail"`    // position ids whose collect/withdraw failed
+	Fail    []int   `json:"fail"`    // position ids whose full withdrawal failed
+	FailC   []int   `json:"failC"`   // position ids whose reward collection failed
 	Errs    []string `json:"errs"`
 	PoolB   []big   `json:"poolBal"` // residuals per allDenoms
 	FeeB    []big   `json:"feeBal"`
@@ -316,7 +321,7 @@ type drainRes struct {
 }
 
 func (w *world) drain(order string, ids []uint64) drainRes {
-	res := drainRes{Order: order, Fail: []int{}, Errs: []string{}, NPos: len(ids)}
+	res := drainRes{Order: order, Fail: []int{}, FailC: []int{}, Errs: []string{}, NPos: len(ids)}
 	cc, _ := w.Ctx.CacheContext()
 	k := w.App.ConcentratedLiquidityKeeper
 	for _, id := range ids {
@@ -347,14 +352,14 @@ func (w *world) drain(order string, ids []uint64) drainRes {
 				_, err := w.msgOn(c).CollectSpreadRewards(c, &types.MsgCollectSpreadRewards{PositionIds: []uint64{id}, Sender: pp.Address})
 				return err
 			}); err != nil {
-				res.Fail = append(res.Fail, int(id))
+				res.FailC = append(res.FailC, int(id))
 				res.Errs = append(res.Errs, "collect spread: "+err.Error())
 			}
 			if err := step(func(c sdk.Context) error {
 				_, err := w.msgOn(c).CollectIncentives(c, &types.MsgCollectIncentives{PositionIds: []uint64{id}, Sender: pp.Address})
 				return err
 			}); err != nil {
-				res.Fail = append(res.Fail, int(id))
+				res.FailC = append(res.FailC, int(id))
 				res.Errs = append(res.Errs, "collect incentives: "+err.Error())
 			}
 			if err := step(func(c sdk.Context) error {
@@ -638,6 +643,68 @@ func recordHistory(t *testing.T, tw *tracelog.Writer, seed int64, nops, drainEve
 		if o.OK {
 			ev.Res = map[string]any{"id": resp.PositionId, "a0": apphelp.BigI(resp.Amount0), "a1": apphelp.BigI(resp.Amount1),
 				"liq": apphelp.BigD(resp.LiquidityCreated), "lo": resp.LowerTick, "hi": resp.UpperTick}
+		}
+		emit(ev)
+	}
+
+	lockIDs := []uint64{}
+	doCreateLocked := func() {
+		who := rng.Intn(nusers)
+		a0, a1 := w.randAmt(maxExp).AddRaw(10), w.randAmt(maxExp).AddRaw(10)
+		if pexp >= 0 {
+			a1 = a1.Mul(pow10(pexp))
+		} else {
+			a0 = a0.Mul(pow10(-pexp))
+		}
+		dur := time.Duration(1+rng.Intn(48)) * time.Hour
+		unlocking := rng.Intn(2) == 0
+		ev := &event{Op: "create", Who: who + 1, Args: map[string]any{"lo": 0, "hi": 0, "a0": apphelp.BigI(a0), "a1": apphelp.BigI(a1),
+			"lockedMs": dur.Milliseconds(), "unlocking": unlocking}}
+		var id, lockID uint64
+		o := w.Try(func(ctx sdk.Context) error {
+			coins := sdk.NewCoins(sdk.NewCoin(d0, a0), sdk.NewCoin(d1, a1))
+			var err error
+			var pd types.CreateFullRangePositionData
+			if unlocking {
+				pd, lockID, err = k.CreateFullRangePositionUnlocking(ctx, w.poolID, w.users[who], coins, dur)
+			} else {
+				pd, lockID, err = k.CreateFullRangePositionLocked(ctx, w.poolID, w.users[who], coins, dur)
+			}
+			id = pd.ID
+			if err == nil {
+				pp, _ := k.GetPosition(ctx, id)
+				ev.Res = map[string]any{"id": id, "a0": apphelp.BigI(pd.Amount0), "a1": apphelp.BigI(pd.Amount1),
+					"liq": apphelp.BigD(pd.Liquidity), "lo": pp.LowerTick, "hi": pp.UpperTick}
+			}
+			return err
+		})
+		outc(ev, o)
+		if o.OK && !unlocking {
+			lockIDs = append(lockIDs, lockID)
+		}
+		if !o.OK {
+			ev.Res = nil
+		}
+		emit(ev)
+	}
+	doBeginUnlock := func() {
+		if len(lockIDs) == 0 {
+			return
+		}
+		i := rng.Intn(len(lockIDs))
+		lid := lockIDs[i]
+		ev := &event{Op: "unlockLock", Args: map[string]any{"lock": lid}}
+		o := w.Try(func(ctx sdk.Context) error {
+			lk, err := w.App.LockupKeeper.GetLockByID(ctx, lid)
+			if err != nil {
+				return err
+			}
+			_, err = w.App.LockupKeeper.BeginUnlock(ctx, lid, lk.Coins)
+			return err
+		})
+		outc(ev, o)
+		if o.OK {
+			lockIDs = append(lockIDs[:i], lockIDs[i+1:]...)
 		}
 		emit(ev)
 	}
@@ -948,7 +1015,11 @@ func recordHistory(t *testing.T, tw *tracelog.Writer, seed int64, nops, drainEve
 			doCreate(true)
 			continue
 		}
-		switch r := rng.Intn(100); {
+		switch r := rng.Intn(104); {
+		case r >= 102:
+			doBeginUnlock()
+		case r >= 100:
+			doCreateLocked()
 		case r < 18:
 			doCreate(false)
 		case r < 28:
